@@ -4,6 +4,7 @@
 #include "nmtools/meta.hpp"
 #include "nmtools/array/view/decorator.hpp"
 #include "nmtools/array/index/take.hpp"
+#include "nmtools/array/index/wrap_axis.hpp"
 #include "nmtools/utility/shape.hpp"
 
 namespace nmtools::view
@@ -74,7 +75,10 @@ namespace nmtools::view
     constexpr auto take(const array_t& array, const indices_t& indices, axis_t axis)
     {
         // TODO: error handling for index error, e.g. any elements of "indices" is greater than "shape" at "axis"
-        return decorator_t<take_t,array_t,indices_t,axis_t>{{array,indices,axis}};
+        // a negative axis counts from the end
+        auto n_axis = index::wrap_axis(axis,dim<true>(array));
+        using n_axis_t = decltype(n_axis);
+        return decorator_t<take_t,array_t,indices_t,n_axis_t>{{array,indices,n_axis}};
     } // take
 } // namespace nmtools::view
 
